@@ -36,7 +36,7 @@ pub fn gen(seed: u64, _idx: u64, tier: Tier) -> Scenario {
         sc.steps.push(Step::Ctl { name: "fill".into(), n: (r.next() >> 1) as i64, a: vec![b(typ), key.clone(), b(&format!("{}", size)), b(&format!("{}", flavour))] });
         if typ == "stream" && r.chance(1, 4) { sc.steps.push(Step::Ctl { name: "empty_stream".into(), n: 0, a: vec![key.clone()] }); }
         if r.chance(2, 5) {
-            let (cmd, v) = match r.below(4) { 0 => ("PEXPIRE", *r.pick(&["1", "50", "999", "1000", "1001", "60000", "86400000", "4102444800000"])), 1 => ("EXPIRE", *r.pick(&["1", "2", "60", "100000", "2147483647"])), 2 => ("PEXPIRE", *r.pick(&["1500", "2500", "10000"])), _ => ("EXPIRE", *r.pick(&["5", "3600"])) };
+            let (cmd, v) = match r.below(4) { 0 => ("PEXPIRE", *r.pick(&["1", "50", "999", "1000", "1001", "60000", "86400000", "4102444800000", "9223372036854775807", "18446744073709551615"])), 1 => ("EXPIRE", *r.pick(&["1", "2", "60", "100000", "2147483647", "9223372036854775"])), 2 => ("PEXPIRE", *r.pick(&["1500", "2500", "10000"])), _ => ("EXPIRE", *r.pick(&["5", "3600"])) };
             sc.steps.push(Step::Cmd { c: 0, a: vec![b(cmd), key.clone(), b(v)], split: vec![] });
         }
         if r.chance(1, 6) { sc.steps.push(Step::Adv { ns: *r.pick(&[1_000_000u64, 300_000_000, 1_000_000_000]) }); }
@@ -240,7 +240,7 @@ pub fn exec(sc: &Scenario) -> Outcome {
 pub static DEF: CheckDef = CheckDef {
     id: "C09", level: "exploration", gen, exec,
     nontrivial: |o| o.counters.get("restarts").copied().unwrap_or(0) >= 1 && o.counters.get("keys_saved").copied().unwrap_or(0) >= 1,
-    rule: "one run = a dataset of 1-40 keys built through the real command path in up to 5 of the 16 databases (strings, lists, sets, hashes, sorted sets, streams; element counts and string lengths drawn from 0/1/2/62..65/255/256/16382..16385/65535..65537/70000; elements that are short text, random binary, integer-looking strings at every integer-encoding boundary, strings that start with the dump format's own opcodes and magic, and strings of 62..256 bytes; keys that are empty, binary, equal to opcodes / the magic string, 63..16384 bytes long; scores incl. +-inf, -0, 5e-324, 1e300; stream ids incl. the greatest possible one, automatic ids, emptied streams; TTLs from 1 ms to the year 2100), then SAVE, the server process is killed, the clocks advance by a downtime of 0 / 1 ms / 0.4 s / 1.2 s / 2 s / 30 s / ~3 years, and a fresh server is booted from the same directory (sometimes a second generation follows); oracle: the canonical stored dataset of the new process equals the one read from the old process at SAVE - per database the same keys with equal values (list order, set members, hash fields, scores numerically equal, stream entries with ids and fields), each remaining time-to-live equal within 2 ms, keys whose deadline passed during the downtime absent, no extra keys; non-trivial = at least one restart with at least one key saved",
+    rule: "one run = a dataset of 1-40 keys built through the real command path in up to 5 of the 16 databases (strings, lists, sets, hashes, sorted sets, streams; element counts and string lengths drawn from 0/1/2/62..65/255/256/16382..16385/65535..65537/70000; elements that are short text, random binary, integer-looking strings at every integer-encoding boundary, strings that start with the dump format's own opcodes and magic, and strings of 62..256 bytes; keys that are empty, binary, equal to opcodes / the magic string, 63..16384 bytes long; scores incl. +-inf, -0, 5e-324, 1e300; stream ids incl. the greatest possible one, automatic ids, emptied streams; TTLs from 1 ms to the year 2100 and up to the greatest accepted value, 2^64-1 ms), then SAVE, the server process is killed, the clocks advance by a downtime of 0 / 1 ms / 0.4 s / 1.2 s / 2 s / 30 s / ~3 years, and a fresh server is booted from the same directory (sometimes a second generation follows); oracle: the canonical stored dataset of the new process equals the one read from the old process at SAVE - per database the same keys with equal values (list order, set members, hash fields, scores numerically equal, stream entries with ids and fields), each remaining time-to-live equal within 2 ms, keys whose deadline passed during the downtime absent, no extra keys; non-trivial = at least one restart with at least one key saved",
     quick_budget_s: 40.0, thorough_budget_s: 900.0, quick_max_runs: 1_000_000, thorough_max_runs: 100_000_000, exhaustive: false, exhaustive_after: |_| 0,
     real: REAL_WHOLE_SERVER, stub: STUB_WHOLE_SERVER, assumptions: ASSUME_COMMON,
 };
